@@ -203,6 +203,39 @@ func c08check(w *Worker, pool *c08pool, r *Rng, idx int64) (produced string) {
 				viol("join-distributes", "Redact/StripMarkers do not distribute over Join", map[string]interface{}{"delim_q": q(delim), "elems": parts})
 			}
 		}
+		// JoinTo accepts any slice: each element is printed on its own (as Sprint would) and the delimiter goes in between,
+		// whatever the element kinds (Sprint's own spacing rule between operands must not show)
+		{
+			pieces := []interface{}{redact.RedactableBytes(pool.pick(r)), 7, nil, redact.Safe("s" + startM), "u", tS2{1, "x"}, redact.RedactableString(pool.pick(r)), redact.RedactableBytes(pool.pick(r)), 2.5, tStringer{"str"}}
+			var vals []interface{}
+			for i, m := 0, r.Intn(5); i < m; i++ {
+				vals = append(vals, pieces[r.Intn(len(pieces))])
+			}
+			var operand interface{} = vals
+			if r.Chance(1, 3) {
+				rbs := []redact.RedactableBytes{}
+				for i, m := 0, r.Intn(4); i < m; i++ {
+					rbs = append(rbs, redact.RedactableBytes(pool.pick(r)))
+				}
+				operand = rbs
+				vals = vals[:0]
+				for _, e := range rbs {
+					vals = append(vals, e)
+				}
+			}
+			d2 := []string{"", "", ", ", delim}[r.Intn(4)]
+			var each []string
+			for _, e := range vals {
+				each = append(each, string(redact.Sprint(e)))
+			}
+			wantAny := strings.Join(each, d2)
+			var sb2 redact.StringBuilder
+			redact.JoinTo(&sb2, redact.RedactableString(d2), operand)
+			w.Eval(1)
+			if gotAny := string(sb2.RedactableString()); canon(gotAny) != canon(wantAny) {
+				viol("join-any", "JoinTo("+q(d2)+", "+reflect.TypeOf(operand).String()+" of "+itoa(len(vals))+" elements) = "+q(gotAny)+" want the elements printed one by one with the delimiter in between: "+q(wantAny), map[string]interface{}{"delim_q": q(d2), "elems": each})
+			}
+		}
 		nt("join")
 		produced = got
 	case 5: // unexported struct fields and typed containers: explicit expectation
@@ -229,6 +262,13 @@ func c08check(w *Worker, pool *c08pool, r *Rng, idx int64) (produced string) {
 			{"%d", tSVStruct{rr, redact.RedactableBytes(rs)}, "{" + rs + " " + rs + "}"},
 			{"%q", tSVSlice{rr}, "[" + rs + "]"},
 			{"%v", struct{ E error }{nil}, "{<nil>}"},
+			// a verb reported for the operand as a whole: the elements are walked on the printer's error path
+			{"%w", []redact.RedactableString{rr, rr}, "%!w([]markers.RedactableString=[" + rs + " " + rs + "])"},
+			{"%p", [1]redact.RedactableBytes{redact.RedactableBytes(rs)}, "%!p([1]markers.RedactableBytes=[" + rs + "])"},
+			{"%w", tS2{rr, redact.Safe(rr)}, "%!w(main.tS2={" + rs + " " + rs + "})"},
+			{"%w", []interface{}{rr, redact.RedactableBytes(rs)}, "%!w([]interface {}=[" + rs + " " + rs + "])"},
+			{"%p", tS3{rr, rr, rr}, "%!p(main.tS3={" + rs + " " + rs + " " + rs + "})"},
+			{"%w", map[string]interface{}{"k": rr}, "%!w(map[string]interface {}=map[" + startM + "k" + endM + ":" + rs + "])"},
 		}
 		c := cases[r.Intn(len(cases))]
 		got := string(redact.Sprintf(c.format, c.v))
